@@ -222,6 +222,12 @@ fn make_crypto_reader<'a>(
             return unsupported_zip_error("Compression method not supported");
         }
     }
+    // Method 99 is only a marker; the real method comes from the AES extra field.
+    // Without one (or with one that names 99 again) there is nothing to decode with.
+    #[cfg(feature = "aes-crypto")]
+    if compression_method == CompressionMethod::Aes {
+        return unsupported_zip_error("Compression method not supported");
+    }
 
     let reader = match (password, aes_info) {
         #[cfg(not(feature = "aes-crypto"))]
